@@ -57,6 +57,12 @@ func checkC01(cx *Ctx, r *Report) {
 		cs := w.callsTo(lrScope, g.match)
 		var inLR []ssa.CallInstruction
 		for _, c := range cs {
+			// a gated effect moved into a helper of loginResponse (`attrs, err := p.userAttributes(ctx, req)`): the helper is
+			// unexported, never used as a value and called from one place - the effect stands for that call, and the
+			// atoms holding at the call hold inside the helper
+			if lifted := cx.liftToCaller(c, lr); lifted != nil && lifted != c && doneAtom(fx.AtomsAt(c)) {
+				c = lifted
+			}
 			if c.Parent() == lr {
 				inLR = append(inLR, c)
 			} else if g.name != "getResponseCert" && g.name != "createSignature" || c.Parent().Parent() != nil {
@@ -170,7 +176,8 @@ func checkC01(cx *Ctx, r *Report) {
 	if len(sites) != 1 {
 		r.Fail("R-VFG", "callback:AuthRequestByID:id", "", fmt.Sprintf("%d call sites of AuthRequestByID in the callback handler's scope", len(sites)))
 	} else {
-		r.checkSources("R-VFG", "callback:AuthRequestByID:id", w.InstrPos(sites[0]), ls, []string{idLeaf}, []string{idLeaf}, true)
+		// ("" only as what a helper hands back together with its error: the empty id is refused, see below)
+		r.checkSources("R-VFG", "callback:AuthRequestByID:id", w.InstrPos(sites[0]), ls, []string{idLeaf, "const:"}, []string{idLeaf}, true)
 		emptyGuard := false
 		for _, a := range fx.AtomsAt(sites[0]) {
 			if a.Op == "EMPTY" && a.Neg {
